@@ -207,6 +207,13 @@ def rule_parse(ctx, repo, eng):
     raw = [c for k, c in reads if k == 'raw']
     for c in raw:
         r.violated('raw-read:%s' % norm(c)[:40], common.site_of(rd, c), 'the frame parser touches the stream directly (`%s`): truncation is not reported as SerializationTruncationError' % norm(c))
+    # a truncated frame is reported by ser_read as the truncation error: no enclosing handler may turn it into something else
+    for k_, c_ in reads:
+        if k_ == 'ser_read':
+            h_ = common.catching_handler(repo, rd, c_, 'bitcoin.core.serialize.SerializationTruncationError')
+            r.check(h_ is None, 'truncation-escapes:%s' % norm(c_)[:30], common.site_of(rd, c_), 'the truncation error of this read reaches the caller',
+                    'the truncation error raised by `%s` is caught by `except %s` and does not reach the caller as SerializationTruncationError: a frame cut short is reported as '
+                    'something else' % (norm(c_), norm(h_.type) if h_ is not None and h_.type is not None else ''), sure=True)
     sr = [norm(c.args[1]) for k, c in reads if k == 'ser_read']
     lv = info.get('length_var')
     r.check(len(sr) == 2 and sr[1] == lv and not raw, 'reads', rd.site, 'ser_read(24) then ser_read(%s)' % lv, 'stream reads are %s' % sr)
